@@ -151,6 +151,14 @@ def _collect(ctx, cfg):
         names = ERRNOS if (commit_call or ctx.thorough) else [ERRNOS[(k + len(w) + len(t) + int(present)) % len(ERRNOS)]]
         for en in names:
             data["faults_errno"][(k, en)] = srv.job(kind="write", writer=w, target=t, present=present, mode="fault", k=k, errno=en, workdir=wd)
+        if commit_call:
+            # at the calls that touch the destination also: the failing condition PERSISTS (a retry fails again), and the process is
+            # killed one / two calls after the (possibly swallowed) failure
+            for en in ERRNOS if (ctx.thorough or present) else ["EACCES"]:
+                data["faults_errno"][(k, en, "persist")] = srv.job(kind="write", writer=w, target=t, present=present, mode="fault", k=k, errno=en, persist=True, workdir=wd)
+                for ka in (1, 2):
+                    data["faults_errno"][(k, en, f"kill+{ka}")] = srv.job(kind="write", writer=w, target=t, present=present, mode="fault", k=k, errno=en,
+                                                                            kill_after_fault=ka, workdir=wd)
     for k in range(n):
         if tr[k][0] == "write":
             data["fmtfails"][k] = srv.job(kind="write", writer=w, target=t, present=present, mode="fmtfail", k=k, workdir=wd)
@@ -434,7 +442,14 @@ def _spec_writes(ctx, out):
         runs = [("trace", None, data["base"])]
         runs += [("kill", k, r) for k, r in data["kills"].items()]
         runs += [("fault", k, r) for k, r in data["faults"].items()]
-        runs += [("fault", k, dict(r, _errno=en)) for (k, en), r in data.get("faults_errno", {}).items()]
+        for key, r in data.get("faults_errno", {}).items():
+            k, en = key[0], key[1]
+            extra = key[2] if len(key) > 2 else None
+            if extra and extra.startswith("kill"):
+                if r.get("exit") == 77:
+                    runs.append(("kill", k, dict(r, _errno=en, _extra=extra)))  # died after the failure: judged like any kill point
+            else:
+                runs.append(("fault", k, dict(r, _errno=en, _extra=extra)))
         runs += [("fmtfail", k, r) for k, r in data["fmtfails"].items()]
         if data["natural"] is not None:
             runs.append(("natural", None, data["natural"]))
@@ -448,9 +463,20 @@ def _spec_writes(ctx, out):
             if real.get("_errno"):
                 inp["errno"] = real["_errno"]
                 bump(out, "fault_errno", real["_errno"])
+                if real.get("_extra"):
+                    inp["after_fault"] = real["_extra"]
+                    inp["mode"] = "fault"
+                    bump(out, "fault_followup", real["_extra"])
             if mode in ("kill", "fault", "fmtfail") or (mode == "natural" and real.get("exc")):
                 out["nontrivial"].add((w, t, present, mode, k))
             for sig, what, exp, got in _judge(cfg, data, mode, k, real, out):
+                extra = real.get("_extra")
+                if extra and extra.startswith("kill"):
+                    sig = sig.replace("kill:", "fault-then-kill:", 1)
+                    what = f"call {k} raised {real['_errno']} and the process was killed {extra[5:]} call(s) later: " + what
+                elif extra == "persist":
+                    sig += ":persistent"
+                    what = f"(the failing condition {real['_errno']} persists for retries) " + what
                 add_failure(out, "spec", what, inp, exp, got, confirmed=True, sig=sig)
             if mode == "kill" and len(out["samples"]) < 4 and present and k == len(tr) - 2:
                 out["samples"].append(dict(inp, after=real["after"]))
@@ -746,7 +772,11 @@ def _one(ctx, w):
         if not idxs:
             return [], None
         k = idxs[w.get("nth", 0)] if len(idxs) > w.get("nth", 0) else idxs[0]
-        real = srv.job(kind="write", writer=cfg[0], target=cfg[1], present=cfg[2], mode=mode, k=k, workdir=wd, errno=w.get("errno", "EIO"))
+        af = w.get("after_fault") or ""
+        real = srv.job(kind="write", writer=cfg[0], target=cfg[1], present=cfg[2], mode=mode, k=k, workdir=wd, errno=w.get("errno", "EIO"),
+                       persist=(af == "persist"), kill_after_fault=(int(af[5:]) if af.startswith("kill+") else None))
+        if af.startswith("kill+"):
+            mode = "kill"
     elif mode == "natural":
         real = srv.job(kind="write", writer=cfg[0], target=cfg[1], present=cfg[2], mode="natural", workdir=wd)
     else:
